@@ -9,6 +9,8 @@ package main
 // except for preconditions, so aliasing is refused unless exactly one name changed at that ordinal.
 
 import (
+	"go/token"
+	"strings"
 	"bytes"
 	"encoding/json"
 	"fmt"
@@ -270,4 +272,67 @@ func (e *Engine) loopOrdinals(key string, n int) []int {
 	}
 	e.note(key, fmt.Sprintf("loops were added or removed: contract loop ordinals aligned by header text (%v)", ords))
 	return ords
+}
+
+// countingLoopVar: for the loop with this contract ordinal, the variable v of a header `for v := 0; cond; v++` (or v += 1).
+func (x *Exec) countingLoopVar(ord int) *types.Var {
+	for node, o := range x.loopOrd {
+		if o != ord {
+			continue
+		}
+		fs, ok := node.(*ast.ForStmt)
+		if !ok || fs.Init == nil || fs.Post == nil {
+			return nil
+		}
+		as, ok := fs.Init.(*ast.AssignStmt)
+		if !ok || as.Tok != token.DEFINE || len(as.Lhs) != 1 || len(as.Rhs) != 1 {
+			return nil
+		}
+		id, ok := as.Lhs[0].(*ast.Ident)
+		lit, ok2 := as.Rhs[0].(*ast.BasicLit)
+		if !ok || !ok2 || lit.Value != "0" {
+			return nil
+		}
+		okPost := false
+		switch p := fs.Post.(type) {
+		case *ast.IncDecStmt:
+			if pid, ok := p.X.(*ast.Ident); ok && pid.Name == id.Name && p.Tok == token.INC {
+				okPost = true
+			}
+		case *ast.AssignStmt:
+			if len(p.Lhs) == 1 && len(p.Rhs) == 1 && p.Tok == token.ADD_ASSIGN {
+				if pid, ok := p.Lhs[0].(*ast.Ident); ok && pid.Name == id.Name {
+					if l, ok := p.Rhs[0].(*ast.BasicLit); ok && l.Value == "1" {
+						okPost = true
+					}
+				}
+			}
+		}
+		if !okPost {
+			return nil
+		}
+		v, _ := x.pkg.TypesInfo.Defs[id].(*types.Var)
+		return v
+	}
+	return nil
+}
+
+// recordedCountingVar: the contract was written when the loop with ordinal `cur` (or an enclosing one) had the header
+// `for name := 0; ...; name++`; returns that ordinal if the loop is now a range loop (whose hidden index replaces name).
+func (e *Engine) recordedCountingVar(key, name string, cur int) int {
+	e.loadLocals()
+	snap := e.localsSnap[key+"#loops"]
+	hs := e.loopHeaders(key)
+	if len(snap) == 0 || len(snap) != len(hs) {
+		return 0
+	}
+	for k := len(snap); k >= 1; k-- {
+		h := snap[k-1]
+		if strings.HasPrefix(h, "for "+name+" := 0;") && (strings.HasSuffix(h, name+"++") || strings.HasSuffix(h, name+" += 1")) && strings.HasPrefix(hs[k-1], "range ") {
+			if k == cur || cur == 0 || k <= cur {
+				return k
+			}
+		}
+	}
+	return 0
 }
